@@ -627,6 +627,9 @@ class BPSK(Modulator):
         # noinspection PyTypeChecker
         if np.any(inputData > 1):
             raise ValueError("Input data can only contains '0's and '1's")
+        if isinstance(inputData, (np.ndarray, np.generic)) and inputData.dtype.kind in "ub":
+            # "1 - 2 * index" wraps around in unsigned integer types
+            inputData = inputData.astype(int)
         return 1 - 2 * inputData
 
     def demodulate(self, receivedData: np.ndarray) -> np.ndarray:
